@@ -1,7 +1,7 @@
 //! A world of real ggrs sessions driven step by step.  One trace line per step.
 use ggrs::{
     DesyncDetection, GgrsError, GgrsEvent, P2PSession, PlayerType, SessionBuilder, SessionState,
-    SpectatorSession,
+    SpectatorSession, SyncTestSession,
 };
 use serde_json::{json, Map, Value};
 use std::cell::RefCell;
@@ -26,6 +26,7 @@ pub fn err_code(e: &GgrsError) -> String {
 pub enum Sess<T: HCfg> {
     P2P(P2PSession<T>),
     Spec(SpectatorSession<T>),
+    Sync(SyncTestSession<T>),
 }
 
 pub struct Peer<T: HCfg> {
@@ -78,7 +79,7 @@ impl<T: HCfg> World<T> {
         // owner of each player handle
         let mut owner: Vec<Option<Addr>> = vec![None; players];
         for (i, pc) in peers_cfg.iter().enumerate() {
-            if pc["kind"] == "p2p" {
+            if pc["kind"] == "p2p" || pc["kind"] == "synctest" {
                 for h in pc["locals"].as_array().ok_or("locals")? {
                     let h = h.as_u64().ok_or("handle")? as usize;
                     if h < players {
@@ -95,7 +96,30 @@ impl<T: HCfg> World<T> {
                 me,
                 net: net.clone(),
             };
-            if pc["kind"] == "p2p" {
+            if pc["kind"] == "synctest" {
+                let b = SessionBuilder::<T>::new()
+                    .with_num_players(players)
+                    .map_err(|e| e.to_string())?
+                    .with_max_prediction_window(window)
+                    .with_input_delay(cfg_u(pc, "delay", 0) as usize)
+                    .with_check_distance(cfg_u(cfg, "check_distance", 2) as usize);
+                let sess = b.start_synctest_session().map_err(|e| e.to_string())?;
+                let mut game = Game::new();
+                if let (Some(f), Some(k)) = (
+                    cfg.get("glitch_frame").and_then(|v| v.as_i64()),
+                    cfg.get("glitch_k").and_then(|v| v.as_u64()),
+                ) {
+                    game.glitch = Some((f as i32, k as u32));
+                }
+                peers.push(Peer {
+                    sess: Sess::Sync(sess),
+                    game,
+                    alive: true,
+                    crashed: false,
+                    locals: (0..players).collect(),
+                    is_spec: false,
+                });
+            } else if pc["kind"] == "p2p" {
                 let locals: Vec<usize> = pc["locals"]
                     .as_array()
                     .unwrap()
@@ -296,6 +320,23 @@ impl<T: HCfg> World<T> {
                     if self.detail >= 2 {
                         line.insert("sn".into(), serde_json::to_value(&snap).unwrap());
                     }
+                }
+            }
+            Sess::Sync(s) => {
+                let snap = s.verif_snapshot();
+                let cur = s.current_frame();
+                let d = snap.sync.queues.first().map(|q| q.delay as i32).unwrap_or(0);
+                line.insert("cur".into(), json!(cur));
+                line.insert("conf".into(), json!(cur - 1));
+                line.insert("run".into(), json!(true));
+                line.insert("fa".into(), json!(0));
+                line.insert("evq".into(), json!(0));
+                line.insert(
+                    "st".into(),
+                    json!((0..snap.num_players).map(|_| json!([false, cur - 1 + d])).collect::<Vec<_>>()),
+                );
+                if self.detail >= 2 {
+                    line.insert("sn".into(), serde_json::to_value(&snap).unwrap());
                 }
             }
             Sess::Spec(s) => {
@@ -547,6 +588,53 @@ impl<T: HCfg> World<T> {
                     }
                 }
             }
+            (Sess::Sync(sess), "tick") => {
+                line.insert("cur0".into(), json!(sess.current_frame()));
+                line.insert("g0".into(), json!([peer.game.st.frame, peer.game.st.hash]));
+                let ins: Vec<(usize, u8)> = s["in"]
+                    .as_array()
+                    .map(|a| {
+                        a.iter()
+                            .map(|hv| (hv[0].as_u64().unwrap_or(0) as usize, hv[1].as_u64().unwrap_or(0) as u8))
+                            .collect()
+                    })
+                    .unwrap_or_default();
+                line.insert("in".into(), s["in"].clone());
+                let mut adds = Vec::new();
+                for (h, v) in &ins {
+                    adds.push(match sess.add_local_input(*h, *v) {
+                        Ok(()) => "ok".to_string(),
+                        Err(e) => err_code(&e),
+                    });
+                }
+                line.insert("add".into(), json!(adds));
+                let r = catch_unwind(AssertUnwindSafe(|| sess.advance_frame()));
+                match r {
+                    Ok(Ok(reqs)) => {
+                        let q = peer.game.handle(reqs);
+                        line.insert("r".into(), json!("ok"));
+                        line.insert("q".into(), Value::Array(q));
+                        if peer.game.glitch_fired {
+                            line.insert("glitched".into(), json!(true));
+                        }
+                    }
+                    Ok(Err(e)) => {
+                        if let GgrsError::MismatchedChecksum { mismatched_frames, .. } = &e {
+                            line.insert("mm".into(), json!(mismatched_frames));
+                        }
+                        line.insert("r".into(), json!(err_code(&e)));
+                        line.insert("q".into(), json!([]));
+                        // the session reports the same mismatch from now on: stop driving it
+                        if matches!(e, GgrsError::MismatchedChecksum { .. }) {
+                            peer.alive = false;
+                        }
+                    }
+                    Err(e) => {
+                        line.insert("r".into(), json!(format!("P:{}", panic_message(e))));
+                        peer.crashed = true;
+                    }
+                }
+            }
             (Sess::Spec(sess), "tick") => {
                 line.insert("cur0".into(), json!(sess.current_frame()));
                 line.insert("g0".into(), json!([peer.game.st.frame, peer.game.st.hash]));
@@ -571,6 +659,7 @@ impl<T: HCfg> World<T> {
                 let r = catch_unwind(AssertUnwindSafe(|| match sess {
                     Sess::P2P(s) => s.poll_remote_clients(),
                     Sess::Spec(s) => s.poll_remote_clients(),
+                    Sess::Sync(_) => (),
                 }));
                 match r {
                     Ok(()) => {
@@ -586,6 +675,7 @@ impl<T: HCfg> World<T> {
                 let evs: Vec<Value> = match sess {
                     Sess::P2P(s) => s.events().map(|e| Self::event_json(&e)).collect(),
                     Sess::Spec(s) => s.events().map(|e| Self::event_json(&e)).collect(),
+                    Sess::Sync(_) => vec![],
                 };
                 line.insert("ev".into(), Value::Array(evs));
                 line.insert("r".into(), json!("ok"));
@@ -632,6 +722,7 @@ impl<T: HCfg> World<T> {
                 let r = catch_unwind(AssertUnwindSafe(|| match sess {
                     Sess::P2P(s) => s.network_stats(h),
                     Sess::Spec(s) => s.network_stats(),
+                    Sess::Sync(_) => Err(GgrsError::NotSynchronized),
                 }));
                 match r {
                     Ok(Ok(ns)) => {
